@@ -301,15 +301,21 @@ Fixpoint ep_run (e : ep) (vs : list ev) : ep * list eres :=
   end.
 
 (* ------------------------------------- observables for the correspondence *)
-Definition hash (b : bytes) : Z :=
-  fold_left (fun h x => (h * 257 + x + 1) mod 1000000007) b 0.
-Definition obs_bytes (b : bytes) : Z * Z * bytes := (zlen b, hash b, firstn 4 b).
-Definition obs_pkt (p : pkt) : Z * Z * (Z * Z * bytes) :=
+(* a position-weighted checksum (sum of bytes, sum of (i+1) * byte i); no modulus,
+   so that vm_compute stays cheap on long frames *)
+Fixpoint hash_from (i s1 s2 : Z) (b : bytes) : Z * Z :=
+  match b with
+  | [] => (s1, s2)
+  | x :: b' => hash_from (i + 1) (s1 + x) (s2 + i * x) b'
+  end.
+Definition hash (b : bytes) : Z * Z := hash_from 1 0 0 b.
+Definition obs_bytes (b : bytes) : Z * (Z * Z) * bytes := (zlen b, hash b, firstn 4 b).
+Definition obs_pkt (p : pkt) : Z * Z * (Z * (Z * Z) * bytes) :=
   match p with
   | PFrame cid d => (0, cid, obs_bytes d)
-  | PCredit cid n => (1, cid, (n, 0, []))
+  | PCredit cid n => (1, cid, (n, (0, 0), []))
   end.
-Definition obs_opt (o : option bytes) : list (Z * Z * bytes) :=
+Definition obs_opt (o : option bytes) : list (Z * (Z * Z) * bytes) :=
   match o with Some d => [obs_bytes d] | None => [] end.
 Definition obs_lres (r : lres) :=
   (map obs_pkt (lr_ab r), map obs_pkt (lr_ba r), obs_opt (lr_sink_a r), obs_opt (lr_sink_b r),
@@ -321,7 +327,45 @@ Definition obs_eres (r : eres) :=
 Definition obs_ep (e : ep) :=
   (s_credits (e_snd e), zlen (s_queue (e_snd e)), r_credits (e_rcv e)).
 
-(* test data: len bytes (start + i) mod 251 *)
-Fixpoint pattern (n : nat) (start : Z) : bytes :=
-  match n with O => [] | S n' => (start mod 251) :: pattern n' (start + 1) end.
-Definition mk_data (start len : Z) : bytes := pattern (Z.to_nat len) start.
+(* test data: len bytes (start + i) mod 251; the counter wraps without a division *)
+Fixpoint pattern (n : nat) (c : Z) : bytes :=
+  match n with O => [] | S n' => c :: pattern n' (if c + 1 =? 251 then 0 else c + 1) end.
+Definition mk_data (start len : Z) : bytes := pattern (Z.to_nat len) (start mod 251).
+
+(* ------------------------------------------ manager tables, many channels *)
+(* channels[handle] and le_coc_channels[handle] as dictionaries: the most recent
+   binding of a key is first.  A channel is named by an identifier (Z). *)
+Definition table := list (Z * Z).
+Fixpoint t_get (t : table) (k : Z) : option Z :=
+  match t with
+  | [] => None
+  | (k', v) :: t' => if k' =? k then Some v else t_get t' k
+  end.
+Definition t_set (t : table) (k v : Z) : table := (k, v) :: t.
+
+Record mgr := mkMgr { m_channels : table; m_lecoc : table }.
+
+Record chan_desc := mkCd { cd_id : Z; cd_kind : kind; cd_src : Z; cd_dst : Z }.
+
+(* connection_channels[source_cid] = channel; le_connection_channels[<key>] = channel *)
+Definition file_channel (sel : kind -> keysel) (m : mgr) (c : chan_desc) : mgr :=
+  mkMgr (t_set (m_channels m) (cd_src c) (cd_id c))
+        (t_set (m_lecoc m) (key_of (sel (cd_kind c)) (cd_src c) (cd_dst c)) (cd_id c)).
+
+(* the head of the list is the channel filed last *)
+Fixpoint file_all (sel : kind -> keysel) (cs : list chan_desc) : mgr :=
+  match cs with
+  | [] => mkMgr [] []
+  | c :: cs' => file_channel sel (file_all sel cs') c
+  end.
+
+(* ChannelManager.on_pdu / on_l2cap_le_flow_control_credit: which channel gets it *)
+Definition route (m : mgr) (p : pkt) : option Z :=
+  match p with
+  | PFrame cid _ => t_get (m_channels m) cid
+  | PCredit cid _ => t_get (m_lecoc m) cid
+  end.
+
+Definition routes_obs (sel : kind -> keysel) (cs : list chan_desc) : list (option Z * option Z) :=
+  let m := file_all sel cs in
+  map (fun c => (route m (PFrame (cd_src c) []), route m (PCredit (cd_dst c) 0))) cs.
